@@ -907,6 +907,12 @@ def run_shards(chk, cases, shard=340):
     A shard that is killed three times is counted as skipped (note in the evidence), never as a verdict;
     a shard that coqc rejects (rc 1: malformed literal, type error) stays broken."""
     import re, time
+    # even out the shards: the cost of a case depends on its kind (0.005 s for a CP mode product, 0.25 s for a compression on Q), and the
+    # kinds are generated in blocks; cases are dealt round-robin (each carries its own id, so the order is immaterial) so that every
+    # shard gets the same mix and no shard becomes the long pole
+    n_sh = max(1, -(-len(cases) // shard))
+    by_kind = sorted(cases, key=lambda c: c.split(", ", 1)[1].split(" ", 1)[0])
+    cases = [c for k in range(n_sh) for c in by_kind[k::n_sh]]
     failing, n_eval, broken = C.run_case_shards("C04", HEADER, "case", cases, shard=shard)
     still, skipped = [], 0
     for b in broken:
